@@ -1,6 +1,14 @@
 package main
 
-import "fmt"
+import (
+	"fmt"
+	"reflect"
+
+	"github.com/cockroachdb/errors"
+	"github.com/cockroachdb/errors/errbase"
+	"github.com/cockroachdb/errors/errorspb"
+	"github.com/gogo/protobuf/types"
+)
 
 // Direct oracles: the property predicate evaluated on the REAL observations
 // only (no model involved).  A failure here is a concrete failing input.
@@ -46,6 +54,8 @@ func runOracles(res *Result, prop string, c *Case) {
 	switch prop {
 	case "C01":
 		oracleC01(res, c)
+	case "C08":
+		oracleC08(res, c)
 	}
 }
 
@@ -70,5 +80,166 @@ func oracleC01(res *Result, c *Case) {
 	e1, e2 := field(c.Real, "h1enc"), field(c.Real, "h2enc")
 	if e1.String() != e2.String() {
 		res.fail(c, "C01.no_drift", fmt.Sprintf("hop1 %s hop2 %s", e1, e2), "C01:drift:"+outerOp(c))
+	}
+}
+
+// ---------------------------------------------------------------------
+// C08: independent reference implementation of the documented equivalence.
+
+type refMark struct {
+	msg string
+	tys []errorspb.ErrorTypeMark
+}
+
+// markOf computes the mark of a node through the public API only.
+func markOf(e error) refMark {
+	if fmt.Sprintf("%T", e) == "*markers.withMark" {
+		enc := errors.EncodeError(bgCtx, e)
+		if w := enc.GetWrapper(); w != nil && w.Details.FullDetails != nil {
+			var mp errorspb.MarkPayload
+			if err := types.UnmarshalAny(w.Details.FullDetails, &mp); err == nil {
+				return refMark{mp.Msg, mp.Types}
+			}
+		}
+	}
+	m := refMark{msg: e.Error()}
+	for c := e; c != nil; c = errbase.UnwrapOnce(c) {
+		m.tys = append(m.tys, errbase.GetTypeMark(c))
+	}
+	return m
+}
+
+func markEquivRef(a, b refMark) bool {
+	if a.msg != b.msg || len(a.tys) != len(b.tys) {
+		return false
+	}
+	for i := range a.tys {
+		if a.tys[i].FamilyName != b.tys[i].FamilyName || a.tys[i].Extension != b.tys[i].Extension {
+			return false
+		}
+	}
+	return true
+}
+
+// refIs: some layer reachable from e (single-cause chain; branches of multi-cause
+// nodes, recursively) is identical to r, says so through its own Is method, or has
+// an equivalent mark.
+func refIs(e, r error) bool {
+	if r == nil {
+		return e == nil
+	}
+	if e == nil {
+		return false
+	}
+	rm := markOf(r)
+	cmp := reflect.TypeOf(r).Comparable()
+	var walk func(e error) bool
+	walk = func(e error) bool {
+		for c := e; c != nil; c = errbase.UnwrapOnce(c) {
+			if cmp && safeEq(c, r) {
+				return true
+			}
+			if x, ok := c.(interface{ Is(error) bool }); ok && x.Is(r) {
+				return true
+			}
+			if markEquivRef(markOf(c), rm) {
+				return true
+			}
+			for _, b := range errbase.UnwrapMulti(c) {
+				if walk(b) {
+					return true
+				}
+			}
+		}
+		return false
+	}
+	return walk(e)
+}
+
+func refClass(c *Case, i int) string {
+	if i < len(c.RefRecs) && c.RefRecs[i] != nil {
+		return "tree"
+	}
+	return "node"
+}
+
+func oracleC08(res *Result, c *Case) {
+	e := c.Err
+	// totality + agreement with the reference equivalence
+	for i, r := range c.Refs {
+		res.OracleEvals["C08.is_vs_reference"]++
+		var got bool
+		ok, pv := catch(func() { got = errors.Is(e, r) })
+		want := refIs(e, r)
+		if !ok {
+			res.fail(c, "C08.total", fmt.Sprintf("Is(e, ref %d) panicked: %v (reference says %v)", i, pv, want), "C08:is-panic")
+			continue
+		}
+		if got != want {
+			sig := "C08:is-false-positive"
+			if want {
+				sig = "C08:is-false-negative"
+			}
+			res.fail(c, "C08.is_vs_reference", fmt.Sprintf("Is(e, ref %d)=%v reference=%v", i, got, want), sig)
+		}
+		// symmetric use: the reference as subject
+		res.OracleEvals["C08.is_vs_reference_swapped"]++
+		var got2 bool
+		ok2, pv2 := catch(func() { got2 = errors.Is(r, e) })
+		want2 := refIs(r, e)
+		if !ok2 {
+			res.fail(c, "C08.total", fmt.Sprintf("Is(ref %d, e) panicked: %v (reference says %v)", i, pv2, want2), "C08:is-panic")
+		} else if got2 != want2 {
+			sig := "C08:is-false-positive"
+			if want2 {
+				sig = "C08:is-false-negative"
+			}
+			res.fail(c, "C08.is_vs_reference", fmt.Sprintf("Is(ref %d, e)=%v reference=%v", i, got2, want2), sig)
+		}
+	}
+	// reflexive
+	res.OracleEvals["C08.reflexive"]++
+	var rf bool
+	if ok, pv := catch(func() { rf = errors.Is(e, e) }); !ok || !rf {
+		res.fail(c, "C08.reflexive", fmt.Sprintf("Is(e,e)=%v panic=%v", rf, pv), "C08:reflexive")
+	}
+	// IsAny = disjunction
+	res.OracleEvals["C08.isany"]++
+	anyWant, anyPanic := false, false
+	for _, r := range c.Refs {
+		ok, _ := catch(func() {
+			if errors.Is(e, r) {
+				anyWant = true
+			}
+		})
+		if !ok {
+			anyPanic = true
+		}
+	}
+	var anyGot bool
+	ok, pv := catch(func() { anyGot = errors.IsAny(e, c.Refs...) })
+	if !ok {
+		if !anyPanic {
+			res.fail(c, "C08.isany", fmt.Sprintf("IsAny panicked: %v", pv), "C08:isany-panic")
+		}
+	} else if !anyPanic && anyGot != anyWant {
+		res.fail(c, "C08.isany", fmt.Sprintf("IsAny=%v disjunction=%v", anyGot, anyWant), "C08:isany")
+	}
+	// nil
+	res.OracleEvals["C08.nil"]++
+	if errors.Is(nil, e) || !errors.Is(nil, nil) || errors.Is(e, nil) {
+		res.fail(c, "C08.nil", "Is with nil", "C08:nil")
+	}
+	// monotone: every single-cause wrapper on top keeps the matches of its cause
+	if k := errbase.UnwrapOnce(e); k != nil {
+		for i, r := range c.Refs {
+			res.OracleEvals["C08.monotone"]++
+			var a, b bool
+			ok1, _ := catch(func() { a = errors.Is(k, r) })
+			ok2, _ := catch(func() { b = errors.Is(e, r) })
+			if ok1 && a && (!ok2 || !b) {
+				res.fail(c, "C08.monotone", fmt.Sprintf("Is(cause, ref %d) holds but Is(wrapper, ref) = %v (ok=%v)", i, b, ok2), "C08:monotone")
+			}
+		}
 	}
 }
